@@ -194,6 +194,54 @@ theorem countSpecB_iff (x r : Dy) (res : Except SamplingErr Nat) :
       · rfl
       · exact absurd ((alignedB_iff _ _ _).1 hb) h4
 
+theorem countSpec_loose (x r : Dy) (res : Except SamplingErr Nat) (h : CountSpec x r res) :
+    CountSpecLoose x r res := by
+  obtain ⟨n, hn, h⟩ := h
+  refine ⟨n, hn, ?_⟩
+  match res with
+  | .ok k => exact h
+  | .error .outOfRange => exact h
+  | .error .misaligned => exact h.2.2
+
+theorem countSpecLooseB_iff (x r : Dy) (res : Except SamplingErr Nat) :
+    countSpecLooseB x r res = true ↔ CountSpecLoose x r res := by
+  have hs := roundHA_spec x.m x.den (den_pos x)
+  unfold countSpecLooseB CountSpecLoose
+  match res with
+  | .ok k =>
+    simp only [Bool.and_eq_true, decide_eq_true_eq, isRoundHAB_iff, alignedB_iff]
+    constructor
+    · rintro ⟨⟨h1, h2⟩, h3⟩
+      exact ⟨k, h1, rfl, h2, h3⟩
+    · rintro ⟨n, h1, h2, h3, h4⟩
+      subst h2
+      exact ⟨⟨h1, h3⟩, h4⟩
+  | .error .outOfRange =>
+    simp only [Bool.and_eq_true, Bool.or_eq_true, decide_eq_true_eq, isRoundHAB_iff]
+    constructor
+    · rintro ⟨h1, h2⟩
+      exact ⟨_, h1, h2⟩
+    · rintro ⟨n, h1, h2⟩
+      have := isRoundHA_unique _ _ (den_pos x) _ _ h1 hs
+      subst this
+      exact ⟨hs, h2⟩
+  | .error .misaligned =>
+    simp only [Bool.and_eq_true, Bool.not_eq_true', isRoundHAB_iff]
+    constructor
+    · rintro ⟨h1, h4⟩
+      refine ⟨_, h1, ?_⟩
+      intro ha
+      rw [← alignedB_iff] at ha
+      rw [ha] at h4
+      exact Bool.noConfusion h4
+    · rintro ⟨n, h1, h4⟩
+      have := isRoundHA_unique _ _ (den_pos x) _ _ h1 hs
+      subst this
+      refine ⟨hs, ?_⟩
+      cases hb : alignedB x r (roundHA x.m x.den)
+      · rfl
+      · exact absurd ((alignedB_iff _ _ _).1 hb) h4
+
 /-- the specification determines the outcome -/
 theorem countSpec_functional (x r : Dy) (a b : Except SamplingErr Nat)
     (ha : CountSpec x r a) (hb : CountSpec x r b) : a = b := by
